@@ -14,10 +14,10 @@ import (
 // once-only over the whole history, withdrawal ids and attested values.
 type OracleC14 struct {
 	counters
-	claimed   map[uint64]int64 // deposit id -> height of the successful claim
-	prevFlag  map[string]bool  // aggregate key -> flagged at the end of the previous block
-	lastWdID  uint64
-	haveWd    bool
+	claimed  map[uint64]int64 // deposit id -> height of the successful claim
+	prevFlag map[string]bool  // aggregate key -> flagged at the end of the previous block
+	lastWdID uint64
+	haveWd   bool
 }
 
 func NewOracleC14() *OracleC14 {
